@@ -325,6 +325,13 @@ void GrammarResolver::cacheGrammarFromParse(const bool aValue)
 
 Grammar* GrammarResolver::orphanGrammar(const XMLCh* const nameSpaceKey)
 {
+    //  The bucket holds the grammars of the current parse that the grammar
+    //  pool did not take (it is locked, or it has a grammar with that key
+    //  already), so look there first: a grammar of the same key in the pool
+    //  is somebody else's.
+    if (fGrammarBucket->containsKey(nameSpaceKey))
+        return fGrammarBucket->orphanKey(nameSpaceKey);
+
     if (fCacheGrammar)
     {
         Grammar* grammar = fGrammarPool->orphanGrammar(nameSpaceKey);
@@ -333,20 +340,11 @@ Grammar* GrammarResolver::orphanGrammar(const XMLCh* const nameSpaceKey)
             if (fGrammarFromPool->containsKey(nameSpaceKey))
                 fGrammarFromPool->removeKey(nameSpaceKey);
         }
-        // Check to see if it's in fGrammarBucket, since
-        // we put it there if the grammar pool refused to
-        // cache it.
-        else if (fGrammarBucket->containsKey(nameSpaceKey))
-        {
-            grammar = fGrammarBucket->orphanKey(nameSpaceKey);
-        }
 
         return grammar;
     }
-    else
-    {
-        return fGrammarBucket->orphanKey(nameSpaceKey);
-    }
+
+    return 0;
 }
 
 XSModel *GrammarResolver::getXSModel()
